@@ -30,6 +30,12 @@ pub fn rand_version(r: &mut Rng, small: bool) -> MV {
     v
 }
 
+/// small-number version with probability num/den, big-number pool otherwise
+pub fn rand_version_mix(r: &mut Rng, num: u32, den: u32) -> MV {
+    let small = r.chance(num, den);
+    rand_version(r, small)
+}
+
 fn push(out: &mut Vec<MV>, v: MV) {
     out.push(v);
 }
